@@ -1200,6 +1200,64 @@ fn frame(version: u8, encoding: u8, len: u16, body: &[u8]) -> Vec<u8> {
   v
 }
 
+/// Small hand-written documents (run first by shard 0 so that reported witnesses are minimal).
+fn fixed_docs() -> Vec<DocM> {
+  let me = format!("did:iota:0x{}", "11".repeat(32));
+  let other = format!("did:iota:0x{}", "22".repeat(32));
+  let base = DocM {
+    me: me.clone(),
+    foreign: vec![other.clone(), "did:example:123".to_string()],
+    controllers: vec![],
+    ctrl_array1: false,
+    aka: vec![],
+    vm: vec![],
+    rel: Default::default(),
+    services: vec![],
+    props: Map::new(),
+    meta: Map::new(),
+  };
+  let url = |did: D, frag: &str| UrlM { did, pq: String::new(), frag: frag.to_string() };
+  let method = |did: D, frag: &str, ctrl: D| MethodM {
+    id: url(did, frag),
+    ctrl,
+    ty: "Ed25519VerificationKey2018".to_string(),
+    data_key: "publicKeyMultibase".to_string(),
+    data: json!("z6MkpTHR8VNsBxYAAWHut2Geadd9jSwuBV8xRoAnwWsdvktH"),
+    props: Map::new(),
+  };
+  let mut v = vec![base.clone()];
+  // one self method
+  let mut d = base.clone();
+  d.vm.push(method(D::Me, "key-1", D::Me));
+  v.push(d.clone());
+  // … with one custom property
+  let mut e = d.clone();
+  e.vm[0].props.insert("note".into(), json!(1));
+  v.push(e);
+  // one controller, as single value and as one-element array
+  let mut c = base.clone();
+  c.controllers = vec![D::F(0)];
+  v.push(c.clone());
+  c.ctrl_array1 = true;
+  v.push(c);
+  // the shape probed while designing: self/foreign methods, references, services, two controllers, alsoKnownAs = self
+  let mut f = d.clone();
+  f.controllers = vec![D::F(0), D::Me];
+  f.aka = vec![me.clone(), "did:example:abc".to_string()];
+  f.vm.push(method(D::F(0), "key-1", D::F(0)));
+  f.rel[0].push(RefM::Embed(method(D::F(1), "auth", D::Me)));
+  f.rel[0].push(RefM::Refer(url(D::Me, "key-1")));
+  f.rel[1].push(RefM::Refer(url(D::F(0), "key-1")));
+  f.rel[4].push(RefM::Refer(url(D::Me, "dangling")));
+  f.services.push(ServiceM { id: url(D::Me, "svc"), ty: json!("LinkedDomains"), endpoint: json!(format!("{}#svc-endpoint", me)), props: Map::new() });
+  f.services.push(ServiceM { id: url(D::F(0), "svc"), ty: json!(["A", "B"]), endpoint: json!("https://example.com/"), props: Map::new() });
+  f.props.insert("linked".into(), json!([me.clone(), other]));
+  f.meta.insert("created".into(), json!("2020-01-02T03:04:05Z"));
+  f.meta.insert("governorAddress".into(), json!("rms1qqqq"));
+  v.push(f);
+  v
+}
+
 fn main() {
   // harness-internal panics are silenced by the panic monitor's hook: print them before dying
   if let Err(p) = catch(real_main) {
@@ -1223,6 +1281,14 @@ fn real_main() {
   let mut rng = args.rng(14);
   let nshards = args.nshards.max(1);
   let scaled = |n: u64| -> u64 { (n * scale / 1000 / nshards).max(1) };
+
+  // ---- fixed minimal documents
+  if args.shard == 0 {
+    for (i, m) in fixed_docs().iter().enumerate() {
+      h.rep.inc("fixed_documents");
+      h.run_doc(&mut rng, m, 4, true, i % 2 == 1, 2_000_000 + i as u64);
+    }
+  }
 
   // ---- random documents
   let n_docs = scaled(if args.thorough { 200_000 } else { 8_000 }).max(6);
